@@ -7,10 +7,21 @@ mod gen;
 mod rng;
 mod search;
 
+pub static LAST_PANIC: std::sync::Mutex<String> = std::sync::Mutex::new(String::new());
+
 pub const MODE: char = if cfg!(debug_assertions) { 'C' } else { 'R' };
 
 fn main() {
-    if std::env::var("VERIF_SHOW_PANICS").is_err() { std::panic::set_hook(Box::new(|_| {})); }
+    // every panic is recorded (message + location) so that a panic that escapes an oracle can still be reported
+    // with the place it came from; nothing is printed unless VERIF_SHOW_PANICS is set
+    let show = std::env::var("VERIF_SHOW_PANICS").is_ok();
+    std::panic::set_hook(Box::new(move |info| {
+        let loc = info.location().map(|l| format!("{}:{}", l.file(), l.line())).unwrap_or_default();
+        let msg = info.payload().downcast_ref::<&str>().map(|s| s.to_string())
+            .or_else(|| info.payload().downcast_ref::<String>().cloned()).unwrap_or_default();
+        if show { eprintln!("panic at {}: {}", loc, msg); }
+        if let Ok(mut g) = LAST_PANIC.lock() { *g = format!("{} at {}", msg, loc); }
+    }));
     let args: Vec<String> = std::env::args().collect();
     if args.len() < 2 {
         eprintln!("usage: drive gen|search ...");
